@@ -1800,3 +1800,25 @@ mod tests {
         assert_eq!(path_to_uri(&PathBuf::from("__prelude.gdn")), None);
     }
 }
+
+#[cfg(wilfred_garden_verif)]
+pub(crate) fn verif_offset_to_lsp_position(src: &str, offset: usize) -> (u32, u32) {
+    // The server derives the line number from the Garden position;
+    // here it is the number of newlines before the offset, which is
+    // what Garden positions record.
+    let o = offset.min(src.len());
+    let line_number = src.as_bytes()[..o].iter().filter(|b| **b == b'\n').count();
+    let p = offset_to_lsp_position(src, offset, line_number);
+    (p.line, p.character)
+}
+
+#[cfg(wilfred_garden_verif)]
+pub(crate) fn verif_line_char_to_offset(src: &str, line: usize, character: usize) -> usize {
+    line_char_to_offset(src, line, character)
+}
+
+#[cfg(wilfred_garden_verif)]
+pub(crate) fn verif_whole_document_range_end(src: &str) -> (u32, u32) {
+    let r = whole_document_range(src);
+    (r.end.line, r.end.character)
+}
